@@ -87,6 +87,14 @@ namespace bloch::runtime {
         return v.type == Value::Type::Object && !v.objectValue;
     }
 
+    // Object values carry the STATIC class of the expression they came from (declared
+    // variable/parameter/field/return type); overloads are chosen from it, as the analyser does.
+    static Value withStaticClass(Value v, const std::string& className) {
+        if (v.type == Value::Type::Object && v.objectValue && !className.empty())
+            v.className = className;
+        return v;
+    }
+
     static std::string valueToString(const Value& v) {
         // Pretty-print a runtime value for echo and tracked summaries.
         std::ostringstream oss;
@@ -1603,7 +1611,11 @@ namespace bloch::runtime {
         thisVal.className = cls->name;
         m_env.back()["this"] = {thisVal, false, true};
         for (size_t i = 0; ctor && i < ctor->params.size() && i < args.size(); ++i) {
-            m_env.back()[ctor->params[i]->name] = {args[i], false, true};
+            {
+                std::string declared = typeInfoFromAst(ctor->params[i]->type.get()).className;
+                m_env.back()[ctor->params[i]->name] = {
+                    findClass(declared) ? withStaticClass(args[i], declared) : args[i], false, true};
+            }
         }
 
         // Detect an explicit super(...) call as the first statement.
@@ -1749,7 +1761,12 @@ namespace bloch::runtime {
         }
         m_returnValue = {};
         for (size_t i = 0; i < method->decl->params.size() && i < args.size(); ++i) {
-            m_env.back()[method->decl->params[i]->name] = {args[i], false, true};
+            {
+                const std::string& declared =
+                    i < method->params.size() ? method->params[i].className : std::string();
+                m_env.back()[method->decl->params[i]->name] = {
+                    findClass(declared) ? withStaticClass(args[i], declared) : args[i], false, true};
+            }
         }
         bool prevReturn = m_hasReturn;
         m_hasReturn = false;
@@ -1777,7 +1794,11 @@ namespace bloch::runtime {
         // Bind parameters, run the body until a return is hit, then unwind.
         beginFrame();
         for (size_t i = 0; i < fn->params.size() && i < args.size(); ++i) {
-            m_env.back()[fn->params[i]->name] = {args[i], false, true};
+            {
+                std::string declared = typeInfoFromAst(fn->params[i]->type.get()).className;
+                m_env.back()[fn->params[i]->name] = {
+                    findClass(declared) ? withStaticClass(args[i], declared) : args[i], false, true};
+            }
         }
         bool prevReturn = m_hasReturn;
         m_returnValue = {};
@@ -1791,6 +1812,11 @@ namespace bloch::runtime {
         }
         Value ret = std::move(m_returnValue);
         m_returnValue = {};
+        {
+            std::string declared = typeInfoFromAst(fn->returnType.get()).className;
+            if (findClass(declared))
+                ret = withStaticClass(std::move(ret), declared);
+        }
         endFrame();
         m_hasReturn = prevReturn;
         return ret;
@@ -2044,6 +2070,12 @@ namespace bloch::runtime {
                     v = eval(var->initializer.get());
                     initialized = true;
                 }
+            }
+            if (dynamic_cast<NamedType*>(var->varType.get())) {
+                // the variable's declared type is the static type of every later read
+                std::string declared = typeInfoFromAst(var->varType.get()).className;
+                if (v.type == Value::Type::Object && findClass(declared))
+                    v.className = declared;
             }
             m_env.back()[var->name] = {v, var->isTracked, initialized};
         } else if (auto block = dynamic_cast<BlockStatement*>(s)) {
@@ -3188,7 +3220,10 @@ namespace bloch::runtime {
                         : nullptr;
                 if (instField) {
                     if (instField->offset < obj.objectValue->fields.size())
-                        obj.objectValue->fields[instField->offset] = rhs;
+                        obj.objectValue->fields[instField->offset] =
+                            findClass(instField->type.className)
+                                ? withStaticClass(rhs, instField->type.className)
+                                : rhs;
                 } else {
                     auto [staticField, owner] =
                         obj.objectValue->cls
